@@ -2679,6 +2679,10 @@ func (p *Parser) testExprBinary(pastAndOr bool) TestExpr {
 	p.got(_Newl)
 	switch p.tok {
 	case andAnd, orOr:
+		if pastAndOr {
+			// The operand of "!" ends here; the caller continues.
+			return left
+		}
 	case _LitWord:
 		if p.val == "]]" {
 			return left
@@ -2745,7 +2749,7 @@ func (p *Parser) testExprUnary() TestExpr {
 	case exclMark:
 		u := &UnaryTest{OpPos: p.pos, Op: TsNot}
 		p.next()
-		if u.X = p.testExprBinary(false); u.X == nil {
+		if u.X = p.testExprBinary(true); u.X == nil {
 			p.followErrExp(u.OpPos, u.Op)
 		}
 		return u
